@@ -150,6 +150,10 @@ def analyse(repo, package='pyx12', exclude=('test', 'scripts', 'examples')):
             for a, d in zip(params[len(params) - len(defaults):], defaults):
                 if is_mutable_literal(d):
                     mut_defaults[a] = d
+            for dec in f.decorator_list:
+                dn = dec.id if isinstance(dec, ast.Name) else (dec.attr if isinstance(dec, ast.Attribute) else (dec.func.id if isinstance(dec, ast.Call) and isinstance(dec.func, ast.Name) else (dec.func.attr if isinstance(dec, ast.Call) and isinstance(dec.func, ast.Attribute) else '')))
+                if dn in ('memoize', 'memoized', 'lru_cache', 'cache', 'cached_property'):
+                    findings.append(Finding('cache-decorator', m.name, qual, dec, 'results cached across calls by @%s' % dn))
             local_stores = {n.id for n in ast.walk(f) if isinstance(n, ast.Name) and isinstance(n.ctx, ast.Store)} | set(params)
             for n in ast.walk(f):
                 # ---- global-write
